@@ -141,6 +141,21 @@ CHECKS["C27"] = ("model_checking",
     "About 1500 (quick) / 6000 (thorough) association histories from lifecycle scenarios with seeded delays at every notification point, incl. rejections, aborts inside handlers, release collisions and second-thread actions.",
     _PAIR_NOTE, "§6 C27", "pair")
 
+CHECKS["C07"] = ("model_checking",
+    "TLA+ Release spec (reactor loop and _wrap_handler loop against a peer that sends A-RELEASE-RQ at any moment) model-checked by TLC: the design as found (the handler wrapper takes the indication) is refuted, "
+    "the repaired design satisfies C07_NeverSwallowed and the liveness property C07_Answered under fairness; every (service, N, arrival point) TLC reaches is run on a real acceptor (and a real C-MOVE destination) "
+    "against a scripted raw peer (S2C) and the observation judged by the Trace_Release spec (C2S)",
+    "All arrival points: idle, inside a plain handler, before each yield and after the last one of C-FIND/C-GET/C-MOVE handlers with up to 2 (3 thorough) results, during each C-GET / C-MOVE sub-operation, "
+    "before the final response, between messages, and while a user thread of the acceptor side waits for a response with the reactor paused: A-RELEASE-RP read by the peer within 3 s, association released, threads ended.",
+    "Trusted: arrival points held by stopping the handler thread until the provider has queued the indication; peer otherwise cooperative; acceptor role.", "§6 C07", "release")
+CHECKS["C08"] = ("model_checking",
+    "TLA+ Stall spec (provider, association and user threads against a peer that keeps the connection open and stops at a PDU boundary, inside a header or inside a body, silent or dribbling) model-checked by TLC: "
+    "the code as found (no read deadline inside a PDU) is refuted by a liveness lasso, boundary stalls hold, a read deadline makes every stall end; every scenario is played by a raw peer against the real node (S2C) "
+    "and the observation at the bound judged by the Trace_Stall spec (C2S)",
+    "8 role/phase pairs (acceptor awaiting A-ASSOCIATE-RQ, idle, mid data set, awaiting A-RELEASE-RP; requestor awaiting A-ASSOCIATE-AC, idle, awaiting a DIMSE response, awaiting A-RELEASE-RP) x {boundary, mid-header, mid-body} x {silence, dribble}: "
+    "the public call returns, association and provider threads end, the OS socket is closed within the sum of the configured timeouts + 1.5 s.",
+    "Trusted: short timeouts (0.6/0.6/0.8/1.0 s); loopback; one incomplete PDU per scenario. Mid-PDU stalls are the open finding D9.", "§6 C08", "stall")
+
 NOT_YET = {}
 
 
